@@ -269,4 +269,39 @@ def replay(ctx):
     return 0
 
 
+def aux_trace_check(tag, inv, props, suites, tier, seed):
+    """Validate recorded optimiser runs against extra formulas of OptimiserTrace on behalf of a
+    property that is mainly checked elsewhere (C04: family-frozen parameters never move)."""
+    out = os.path.join(vp.WORK, tag + "_traces")
+    os.makedirs(out, exist_ok=True)
+    for fn in os.listdir(out):
+        os.remove(os.path.join(out, fn))
+    vp.pvh(["opt", "--out", out, "--tier", tier, "--seed", str(seed), "--suites", suites])
+    files = json.load(open(os.path.join(out, "index.json")))["files"]
+    cfg = "SPECIFICATION Spec\n"
+    if inv:
+        cfg += "INVARIANTS " + " ".join(inv) + "\n"
+    if props:
+        cfg += "PROPERTIES " + " ".join(props) + "\n"
+    cfg += "POSTCONDITION Accepted\nCHECK_DEADLOCK FALSE\n"
+    jobs = []
+    for k, f in enumerate(files):
+        def job(f=f, k=k):
+            return f, vp.run_tlc("OptimiserTrace", cfg, "%s_tr_%d" % (tag, k),
+                                 env={"TRACE": f["file"], "TOKENS": f["tokens"]}, workers=1, timeout=3000, xmx="3g")
+        jobs.append(job)
+    res = {"runs": 0, "events": 0, "states": 0, "failures": [], "errors": []}
+    for f, r in vp.parallel(jobs, n=8):
+        res["runs"] += f["runs"]
+        res["events"] += f["lines"]
+        res["states"] += r["distinct"]
+        if r["violations"]:
+            kind, name = r["violations"][0]
+            desc, run, header, off = find_run(f["file"], r["depth"] + 1)
+            res["failures"].append(("%s violated in recorded run" % name, {"run": desc, "event_offset": off}))
+        elif r.get("error") or r["not_consumed"]:
+            res["errors"].append(os.path.basename(f["file"]))
+    return res
+
+
 REGISTRY = {pid: run_check for pid in FORMULAS}
